@@ -39,6 +39,13 @@ pub fn third_party_fonts() -> Vec<CorpusFont> {
     out
 }
 
+/// small generated static TrueType fonts kept as regression inputs for C03 only (each once showed a divergence from FreeType)
+pub fn c03_regress_fonts() -> Vec<CorpusFont> {
+    let mut out = vec![];
+    load_dir(verif_dir().join("corpus/c03_regress"), &["ttf", "otf"], &mut out);
+    out
+}
+
 pub fn all_fonts() -> Vec<CorpusFont> {
     let mut v = repo_fonts();
     v.extend(third_party_fonts());
